@@ -1,7 +1,11 @@
 (* C11 driver: one case per line "<op> <args...>" (decimal)
      integer ops  -> "<ok> <num> <den>"                         or NONE (fuel exhausted)
      poly ops     -> "<ok> N <coeffs low degree first> D <coeffs>"   or NONE
-       poly.rr5 / poly.check / poly.rr6   p dk fr nP c0 .. nM c0 ..                                   *)
+       poly.rr5 / poly.check / poly.rr6   p dk fr nP c0 .. nM c0 ..
+   argv: KARA_THRESHOLD SQR_THRESHOLD (read by the check from givpoly1kara.inl) for the polynomial model        *)
+let thr i = if Array.length Sys.argv > i then nat_of_int (int_of_string Sys.argv.(i)) else (prerr_endline "usage: driver KARA_THRESHOLD SQR_THRESHOLD"; exit 2)
+let kthr = lazy (thr 1)
+let sthr = lazy (thr 2)
 let zs = z_of_string
 let b s = s <> "0"
 let pr = function
@@ -24,9 +28,9 @@ let poly op p dk fr rest =
        let mm = List.map zs (take nm r2) in
        let p = zs p and dk = zs dk in
        (match op with
-        | "poly.rr5" -> prp (Model.pratrecon6 p pp mm dk false)
-        | "poly.check" -> prp (Model.pratreconcheck p pp mm dk)
-        | "poly.rr6" -> prp (Model.pratrecon6 p pp mm dk (b fr))
+        | "poly.rr5" -> prp (Model.zp_ratrecon5 p (Lazy.force kthr) (Lazy.force sthr) pp mm dk)
+        | "poly.check" -> prp (Model.zp_ratreconcheck p (Lazy.force kthr) (Lazy.force sthr) pp mm dk)
+        | "poly.rr6" -> prp (Model.zp_ratrecon6 p (Lazy.force kthr) (Lazy.force sthr) pp mm dk (b fr))
         | _ -> "BAD-LINE")
      | [] -> "BAD-LINE")
   | [] -> "BAD-LINE"
